@@ -179,15 +179,15 @@ def gen_plan(module, cfg, tag, extra_env=None, timeout=1800):
     return outp, n
 
 
-def gen_lazy_plan():
+def gen_lazy_plan(cfg="cfg/LazyPlan.cfg"):
     """all accessor-call sequences of the LazyVar state machine (spec -> implementation): TLC explores
     LazyVar.tla without the VIEW and prints one PLANLINE per behaviour; returns (path, n, states)"""
     md = os.path.join(WORK, "pl_lazy")
-    r = subprocess.run(tlc_cmd("LazyVar.tla", "cfg/LazyPlan.cfg", md, 1, "2g"), cwd=SPEC, capture_output=True, text=True)
+    r = subprocess.run(tlc_cmd("LazyVar.tla", cfg, md, 1, "2g"), cwd=SPEC, capture_output=True, text=True)
     shutil.rmtree(md, ignore_errors=True)
     if "No error has been found" not in r.stdout:
         raise ToolError("LazyVar plan generation failed:\n" + r.stdout[-2000:])
-    seqs = sorted(set(re.findall(r'"PLANLINE", "([CEV]+)"', r.stdout)))
+    seqs = sorted(set(re.findall(r'"PLANLINE", "([CEVDNPM]+)"', r.stdout)), key=lambda x: (len(x), x))
     m = None
     for m in _mc_re.finditer(r.stdout):
         pass
